@@ -230,6 +230,9 @@ func c04WireRun(t *testing.T, static bool, evs []c04Ev) (res c04WireRes) {
 				if got != W[i] {
 					fail("ledger-mismatch", "after %s: stream %s wire ledger W=%d but limit+delta-pendingData-pendingUpdate=%d (%s)", after, nm, W[i], got, fl)
 				}
+				if hi := iws + reqRem[i]; W[i]+avail[i] > hi {
+					fail("over-advertised", "after %s: stream %s: peer window %d + %d delivered-and-unread bytes exceeds the configured window %d + outstanding read remainder %d (%s)", after, nm, W[i], avail[i], iws, reqRem[i], fl)
+				}
 				if avail[i] == 0 {
 					if lo := iws - c04Slack(iws); W[i] < lo {
 						fail("window-not-restored", "after %s: stream %s: application consumed everything delivered but the peer's window is %d < %d (configured %d) (%s)", after, nm, W[i], lo, iws, fl)
